@@ -135,7 +135,7 @@ def run(tier):
     t0 = time.time()
     V = vlib.Verdict("C14")
     cfgs = configs(tier)
-    budget = 6000 if tier == "quick" else 400000
+    budget = 6000 if tier == "quick" else 80000
     with vlib.Scratch() as scratch:
         # design level: the user-facing property over the specification's own variables, before any implementation is involved
         dl_ok, dl_gen, dl_dist, dl_out = vlib.run_design_level("MC_Containers.tla", "MC_Containers.cfg", scratch)
